@@ -97,6 +97,18 @@ def retire (l : Local) (seq : Nat) (c : Cid) : RetireRes :=
       .retired l2 old f
     | _ => .noop
 
+inductive ErrKind where
+  | connectionIdLimit | protocolViolation | transportParameter
+  deriving DecidableEq, Repr
+
+/-- error kind returned with `RetireRes.errUnissued`: the pinned tree says `ErrorKind::ConnectionIdLimit`; with
+`repo_patches/fix-C14-retire-unissued-kind.diff` it is `ErrorKind::ProtocolViolation`. -/
+def unissuedKind (fixed : Bool) : ErrKind := if fixed then .protocolViolation else .connectionIdLimit
+
+/-- RFC 9000 §19.16: "Receipt of a RETIRE_CONNECTION_ID frame containing a sequence number greater than any
+previously sent to the peer MUST be treated as a connection error of type PROTOCOL_VIOLATION." -/
+def rfcUnissuedKind : ErrKind := .protocolViolation
+
 /-- `clear()`: `drain_to(largest())`, `retire_cid` for every remaining id (deque order). -/
 def clear (l : Local) : Local × List Cid :=
   ({ l with off := l.largest, dq := [] }, l.active)
